@@ -38,7 +38,21 @@ RULE = ("Detector: Hypothesis draws bits (1..32; additionally EVERY bits value 1
         "result kept across the later calls.  Bayer: uint8 / uint32 / int64 mosaics, sample values at the bottom, just above "
         "2^24 and at the very top of the type's range (floats: 1e-30 and 1e30 / 1e300 scales), a mosaic of the same shape and "
         "another dtype demosaicked first, two more mosaics of the same shape demosaicked after the kept result.  White balance: "
-        "gains in every scalar form, per-channel saturation as list / tuple / ndarray.")
+        "gains in every scalar form, per-channel saturation as list / tuple / ndarray.  "
+        "Round-6 hardening: (after a caught exception) history 'failed-request' - an unsupported or ill-typed value is assigned to a public "
+        "attribute of the detector (bits 33 / 40 / 64 / 1000 / None / str, conversion_gain 0 / None / str, exposure_time, fwc, bias, "
+        "dark_current, read_noise, prnu / dcnu of another shape, an empty lut) and an exposure is attempted, or a 1-D / 0-d / None image or a "
+        "negative / ill-typed frame count is exposed, all inside try/except; an attribute whose assignment went through is then assigned its "
+        "valid value again, one whose assignment itself raised is left alone if it still reads the old value, and the detector must satisfy "
+        "the same oracle as a fresh one (buckets ...:after-failed-request:<attr>); the failing request reaches a fresh detector or one that "
+        "has already made a valid exposure (drawn); every (bits, gain, frames) of the ceiling enumeration is "
+        "run once fresh and once after such a request.  bindown / tile (bad mode, non-dividing / too many / zero factors, None), the Bayer "
+        "routines (unknown layout, odd-shaped / 1-D mosaic, None, output= of the wrong shape / type) and white balance (unknown layout, safe "
+        "mode without saturation - refused before the in-place target is touched) get failing calls on the very arrays used afterwards.  "
+        "(Output buffers) recomposite_bayer / composite_bayer are called with output= none | a fresh buffer | one buffer for two consecutive "
+        "calls with different planes | (composite) the buffer IS the r / g1 / g2 / b plane, whose own sites must keep their samples while the "
+        "other sites receive the other colours (the four colour sites are disjoint; holds on the unchanged code) | (recomposite) the mosaic "
+        "whose decomposed planes (views, one edited in place) are written back into it.  prnu and dcnu may be one and the same ones-map object.")
 ASSUMPTIONS = ["numpy elementwise arithmetic, np.repeat and float->unsigned casts of in-range values are correct",
                "with a non-uniform prnu map the dark current is zero and vice versa (the property does not say whether "
                "PRNU applies to dark signal; both readings then agree)",
@@ -142,6 +156,15 @@ def require_kept(ctx, who, result, kept, what):
         ctx.fail(who + ':result-overwritten', 'the %s %s array returned by %s changed while %s' % (kept.dtype, kept.shape, who, what))
 
 
+def caught(ctx, what, fn, *a, **k):
+    """a request that is expected to fail and is caught by the caller; nothing is asserted about it (if it does not fail either)"""
+    try:
+        fn(*a, **k)
+        ctx.label('failed-call:%s:did-not-raise' % what)
+    except Exception:
+        ctx.label('failed-call:%s:raised' % what)
+
+
 # ---- detector ------------------------------------------------------------------------------------
 IMG_DTYPES = ['f8', 'f8', 'f8', 'f4', 'f4', 'i8', 'u2']
 LEVELS = ['zero', 'tiny', 'mid', 'mid', 'mid2', 'max', 'between', 'cap', 'over', 'far', 'huge']
@@ -178,7 +201,8 @@ def build_detector_case(case, noisy=False):
     elif case['prnu'] == 'map':
         prnu = r.uniform(0.8, 1.2, (h, w))
     if case['dcnu'] == 'ones':
-        dcnu = np.ones((h, w))
+        # (now and then the very same array object serves as both maps)
+        dcnu = prnu if (case['prnu'] == 'ones' and case['seed'] % 2) else np.ones((h, w))
     elif case['dcnu'] == 'map':
         dcnu = r.uniform(0.5, 2.0, (h, w))
     # the property does not say whether PRNU scales dark signal: never both non-trivial
@@ -244,6 +268,72 @@ def _det_params(case, d, read_noise):
                 lut=d['lut'])
 
 
+# requests that fail and are caught by the caller (class "after an exception"): an unsupported / ill-typed value assigned to a public
+# attribute of the detector followed by an exposure, or an exposure with a malformed image / frame count.  Nothing is asserted about
+# the failing request; afterwards every attribute whose assignment went through is assigned its valid value again (an ordinary,
+# valid request), an attribute whose assignment itself raised is left alone when it still reads its old value (the failed request
+# "never happened"), and the detector is used as if nothing had happened.
+BAD_ATTR = {'bits=40': ('bits', 40), 'bits=33': ('bits', 33), 'bits=64': ('bits', 64), 'bits=1000': ('bits', 1000), 'bits=None': ('bits', None),
+            'bits=str': ('bits', 'twelve'), 'gain=0': ('conversion_gain', 0.0), 'gain=str': ('conversion_gain', 'high'),
+            'gain=None': ('conversion_gain', None), 'time=None': ('exposure_time', None), 'time=str': ('exposure_time', '1/30'),
+            'fwc=None': ('fwc', None), 'bias=str': ('bias', 'auto'), 'dark=None': ('dark_current', None), 'read_noise=str': ('read_noise', 'low')}
+FAILS = sorted(BAD_ATTR) + ['bits=40', 'bits=33', 'bits=64', 'prnu-shape', 'dcnu-shape', 'lut-empty', 'image-1d', 'image-0d', 'image=None', 'frames=-1', 'frames=str']
+
+
+def _failed_request(det, fail, img, frames, ctx, warm=False):
+    """issue the failing request `fail` on det and catch whatever it raises; restore what a *successful* assignment changed.
+    warm: the detector has already made a valid exposure when the failing request arrives"""
+    h, w = np.shape(img)
+    ctx.label('failed-request:' + ('detector-used-before' if warm else 'fresh-detector'))
+    if warm:
+        with rng_proxy(_NoNoise()):
+            ctx.call(det.expose, img, frames)
+    name = None
+    fimg, fframes = img, frames
+    if fail in BAD_ATTR:
+        name, bad = BAD_ATTR[fail]
+    elif fail == 'prnu-shape':
+        name, bad = 'prnu', np.ones((h + 1, w + 2))
+    elif fail == 'dcnu-shape':
+        name, bad = 'dcnu', np.ones((h + 2, w + 1))
+    elif fail == 'lut-empty':
+        name, bad = 'lut', np.zeros(0, dtype=np.uint16)
+    elif fail == 'image-1d':
+        fimg, fframes = np.ravel(img), 1
+    elif fail == 'image-0d':
+        fimg = np.float64(3.0)
+    elif fail == 'image=None':
+        fimg = None
+    elif fail == 'frames=-1':
+        fframes = -1
+    elif fail == 'frames=str':
+        fframes = 'two'
+    else:
+        raise ValueError(fail)
+    assigned = False
+    if name is not None:
+        original = getattr(det, name)
+        try:
+            setattr(det, name, bad)
+            assigned = True
+        except Exception:      # the request failed at the assignment; nothing is asserted about it
+            ctx.label('failed-request:assignment-raised')
+    try:
+        with rng_proxy(_NoNoise()):
+            det.expose(fimg, fframes)
+        ctx.label('failed-request:expose-did-not-raise')
+    except Exception:          # the request failed in expose; nothing is asserted about it
+        ctx.label('failed-request:expose-raised')
+    if name is not None:
+        now = getattr(det, name)
+        arrays = isinstance(original, np.ndarray) or isinstance(now, np.ndarray)
+        same = now is original or (not arrays and type(now) is type(original) and now == original)
+        if assigned or not same:
+            ctx.call(setattr, det, name, original)       # a valid request: the value the detector was built with
+        else:
+            ctx.label('failed-request:attribute-kept-its-value')
+
+
 def _mk_detector(case, d, read_noise=0.0, ctx=None):
     """the detector under test; optionally with a history inside the process: another instance (other bit depth, gain, image
     shape and dtype) exposed first, or this very object built with other parameters, exposed, and then re-configured through
@@ -259,6 +349,11 @@ def _mk_detector(case, d, read_noise=0.0, ctx=None):
         return Detector(**kw)
     if hist == 'none' or ctx is None:
         return make(), kw
+    if hist == 'failed-request':
+        det = make()
+        ctx.label('fail:' + case.get('fail', 'bits=40'))
+        _failed_request(det, case.get('fail', 'bits=40'), d['img'], case['frames'], ctx, warm=case.get('fail_warm', False))
+        return det, kw
     h, w = case['shape']
     r = U.rng_of(case['seed'], 21)
     other_bits = int(r.choice([b for b in (1, 7, 8, 10, 16, 17, 32) if b != case['bits']]))
@@ -336,7 +431,8 @@ def strat_detector(tier):
         'img_dtype': st.sampled_from(IMG_DTYPES), 'layout': st.sampled_from(LAYOUTS), 'map_layout': st.sampled_from(LAYOUTS),
         'form': st.sampled_from(FORMS), 'bits_form': st.sampled_from(['int', 'int', 'np64']),
         'frames_form': st.sampled_from(['int', 'int', 'np64', 'default', 'kw']),
-        'history': st.sampled_from(['none', 'none', 'other-instance', 'same-shape-before', 'reassigned']),
+        'history': st.sampled_from(['none', 'none', 'other-instance', 'same-shape-before', 'reassigned', 'failed-request']),
+        'fail': st.sampled_from(FAILS), 'fail_warm': st.booleans(),
         'shape': shape, 'bits': st.integers(1, 32),
         'gain': st.one_of(st.sampled_from(GAINS), st.sampled_from(GAINS), U.nice_float(0.05, 40.0)),
         't': st.sampled_from([1.0, 0.01, 30.0, 0.7]), 'fwc_rel': st.sampled_from([0.3, 0.9, 1.0, 1.5, 100.0, 1e6]),
@@ -346,7 +442,7 @@ def strat_detector(tier):
         'seed': U.seeds})
 
 
-def check_noise_free(case, ctx):
+def _check_noise_free(case, ctx):
     """noise sources off: DN == floor(clip(min(signal, fwc)/gain, 0, 2^bits-1)); range; shape/dtype; monotone in the signal."""
     d = build_detector_case(case)
     lo, hi, v = _oracle_dn(d, case)
@@ -402,7 +498,7 @@ def check_noise_free(case, ctx):
             i, a[i], b[i], bits))
 
 
-def check_noisy_range(case, ctx):
+def _check_noisy_range(case, ctx):
     """real (seeded) Poisson + Gaussian noise: shape, dtype and 0 <= DN <= 2^bits-1."""
     d = build_detector_case(case, noisy=True)
     _, _, v = _oracle_dn(d, case)
@@ -439,14 +535,21 @@ def check_noisy_range(case, ctx):
                 bits, i, np.broadcast_to(v, o.shape)[i], np.broadcast_to(sd_dn, o.shape)[i], o[i], top))
 
 
+ENUM_FAILS = ['bits=40', 'gain=0', 'bits=33', 'lut-empty', 'image-1d', 'bits=None', 'prnu-shape', 'frames=-1', 'bits=64', 'time=str', 'bits=1000']
+
+
 def enum_ceiling(tier):
+    k = 0
     for bits in range(1, 33):
         for gain in (1.0, 0.37, 4.0, 0.7, 1.3, 7.9):
             for frames in (1, 2):
                 yield {'bits': bits, 'gain': gain, 'frames': frames}
+                # the same detector after a failed request that the caller caught
+                k += 1
+                yield {'bits': bits, 'gain': gain, 'frames': frames, 'fail': ENUM_FAILS[k % len(ENUM_FAILS)], 'fail_warm': (k // len(ENUM_FAILS)) % 2 == 1}
 
 
-def check_ceiling(case, ctx):
+def _check_ceiling(case, ctx):
     """every bit depth 1..32: pixels below / at / between / above the ADC ceiling read min(floor(x), 2^bits-1), never wrap."""
     from prysm.detector import Detector
     bits, gain, frames = case['bits'], case['gain'], case['frames']
@@ -457,6 +560,9 @@ def check_ceiling(case, ctx):
     ctx.label('bits<=8' if bits <= 8 else 'bits<=16' if bits <= 16 else 'bits<=32')
     el = dn_in * gain
     det = Detector(dark_current=0.0, read_noise=0.0, bias=0.0, fwc=1e15 * top * gain, conversion_gain=gain, bits=bits, exposure_time=1.0)
+    ctx.label('fail:' + case.get('fail', 'none'))
+    if case.get('fail', 'none') != 'none':
+        _failed_request(det, case['fail'], el, frames, ctx, warm=case.get('fail_warm', False))
     with rng_proxy(_NoNoise()):
         out = ctx.call(det.expose, el, frames)
     U.check_shape(out, (2, 10) if frames == 1 else (frames, 2, 10), 'expose')
@@ -474,6 +580,24 @@ def check_ceiling(case, ctx):
                 bits, gain, f, v[i], o[f][i], lo[i], int(top) - 1, o[f][i[0]].tolist()))
 
 
+def _after_failed_request(inner, failed):
+    """the same check; a violation found on a detector that went through a failed, caught request is filed under its own bucket"""
+    def check(case, ctx):
+        try:
+            inner(case, ctx)
+        except Violation as v:
+            if failed(case):
+                raise Violation(v.bucket + ':after-failed-request:' + case.get('fail', 'bits=40').split('=')[0], 'after the failed request %r was caught: %s' % (case.get('fail', 'bits=40'), v.msg)) from v
+            raise
+    check.__doc__ = inner.__doc__
+    return check
+
+
+check_noise_free = _after_failed_request(_check_noise_free, lambda c: c.get('history', 'none') == 'failed-request')
+check_noisy_range = _after_failed_request(_check_noisy_range, lambda c: c.get('history', 'none') == 'failed-request')
+check_ceiling = _after_failed_request(_check_ceiling, lambda c: c.get('fail', 'none') != 'none')
+
+
 # ---- binning / tiling ------------------------------------------------------------------------------
 def strat_bin(tier):
     hi = {'quick': 4, 'thorough': 6}[tier]
@@ -486,7 +610,8 @@ def strat_bin(tier):
         'out': st.just(of[0]), 'factor': st.just(of[1]),
         'kind': st.sampled_from(['float', 'float', 'float32', 'intfloat', 'int64', 'const', 'uint16', 'uint8', 'int32']),
         'scalar_factor': st.booleans(), 'avg_name': st.sampled_from(['avg', 'average', 'mean']),
-        'seq': st.sampled_from(['list', 'tuple', 'ndarray']), 'layout': st.sampled_from(LAYOUTS), 'before': st.booleans(), 'seed': U.seeds}))
+        'seq': st.sampled_from(['list', 'tuple', 'ndarray']), 'layout': st.sampled_from(LAYOUTS), 'before': st.booleans(), 'seed': U.seeds,
+        'failed_call': st.sampled_from(['none', 'none', 'none', 'bad-mode', 'not-divisible', 'factor-length', 'factor-zero', 'not-an-array'])}))
 
 
 def _ref_bindown_sum(x, factor):
@@ -551,6 +676,22 @@ def check_bin(case, ctx):
         ctx.call(bindown, pre, 3 if nd > 1 else [2, 3], 'sum')
         ctx.call(tile, pre, 2 if nd > 1 else (1, 2), avg)
     xs, ys = relayout(x, lay), relayout(y, lay)
+    fc = case.get('failed_call', 'none')
+    ctx.label('failed-call:' + fc)
+    if fc == 'bad-mode':
+        caught(ctx, fc, bindown, xs, farg, 'median')
+        caught(ctx, fc, tile, ys, farg, 'median')
+    elif fc == 'not-divisible':
+        caught(ctx, fc, bindown, xs, [f + 1 if s_ % (f + 1) else s_ + 1 for f, s_ in zip(factor, shape)], 'sum')
+    elif fc == 'factor-length':
+        caught(ctx, fc, bindown, xs, list(factor) + [2], avg)
+        caught(ctx, fc, tile, ys, list(factor)[:-1], 'sum')
+    elif fc == 'factor-zero':
+        caught(ctx, fc, bindown, xs, [0] * nd, 'sum')
+        caught(ctx, fc, tile, ys, [0] * nd, 'sum')
+    elif fc == 'not-an-array':
+        caught(ctx, fc, bindown, None, farg, 'sum')
+        caught(ctx, fc, tile, None, farg, avg)
     fsnap = snapshot(xs, ys, farg)
     bs = ctx.call(bindown, xs, farg, 'sum')
     bs_kept = np.array(bs, copy=True)
@@ -611,12 +752,20 @@ def site_colours(shape, cfa):
     return c
 
 
+# the output= buffer of recomposite_bayer / composite_bayer: none | a fresh zeroed buffer | one buffer used for two consecutive calls
+# with different planes | (composite) the buffer IS one of the four dense planes - the colour sites are disjoint, so the plane keeps
+# its own native samples and receives the other three colours | (recomposite) the buffer is the mosaic whose decomposed planes
+# (strided views of that very buffer, one of them edited in place) are written back into it
+OUT_MODES = ['none', 'none', 'fresh', 'fresh', 'reused', 'plane:r', 'plane:g1', 'plane:g2', 'plane:b', 'views']
+
+
 def strat_bayer(tier):
     hi = {'quick': 8, 'thorough': 20}[tier]
     half = st.integers(1, hi)
     return st.fixed_dictionaries({'half': st.tuples(half, half).map(list), 'cfa': st.sampled_from(CFAS), 'dtype': st.sampled_from(DTYPES),
                                   'level': st.sampled_from(VALUE_LEVELS), 'layout': st.sampled_from(LAYOUTS), 'before': st.booleans(),
-                                  'seed': U.seeds, 'out_arg': st.booleans()})
+                                  'seed': U.seeds, 'out_arg': st.booleans(), 'out_mode': st.sampled_from(OUT_MODES),
+                                  'failed_call': st.sampled_from(['none', 'none', 'none', 'bad-cfa', 'odd-mosaic', 'not-an-array', 'bad-output'])})
 
 
 def _marker(shape, dtype, seed, salt, level='low', offset=0):
@@ -669,6 +818,19 @@ def check_bayer(case, ctx):
 
     def untouched(fn):
         require_unchanged(ctx, fn, ['mosaic'], [img], isnap)
+    fc = case.get('failed_call', 'none')
+    ctx.label('failed-call:' + fc)
+    if fc == 'bad-cfa':
+        # a layout the library does not implement, with the very arrays that are used afterwards
+        for fn in (bayer.decomposite_bayer, bayer.demosaic_malvar, bayer.demosaic_deinterlace):
+            caught(ctx, fc, fn, img, 'grbg')
+    elif fc == 'odd-mosaic':
+        for fn in (bayer.demosaic_malvar, bayer.decomposite_bayer, bayer.demosaic_deinterlace):
+            caught(ctx, fc, fn, img[:-1, :-1], cfa)
+            caught(ctx, fc, fn, img[0], cfa)
+    elif fc == 'not-an-array':
+        for fn in (bayer.demosaic_malvar, bayer.decomposite_bayer):
+            caught(ctx, fc, fn, None, cfa)
     # decomposition
     planes = ctx.call(bayer.decomposite_bayer, img, cfa)
     ctx.require(len(planes) == 4, 'decomposite:len', 'decomposite_bayer must return r, g1, g2, b')
@@ -678,39 +840,93 @@ def check_bayer(case, ctx):
         U.check_equal(np.asarray(planes[k]), want, 'decomposite:%s:%s' % (cfa, name), 'plane %s of a %dx%d %s mosaic' % (name, m, n, cfa))
     untouched('decomposite_bayer')
     # recomposition of the planes, and of four independent planes
+    out_mode = case.get('out_mode', 'fresh' if case['out_arg'] else 'none')
+    ctx.label('output:' + out_mode)
+    with_buf = out_mode != 'none'
+    names4 = ('r', 'g1', 'g2', 'b')
     pl = [relayout(np.array(p, copy=True), lay) for p in planes]
     psnap = snapshot(*pl)
-    if case['out_arg']:
+    if fc == 'bad-cfa':
+        caught(ctx, fc, bayer.recomposite_bayer, *pl, cfa='grbg')
+    if with_buf:
         buf = relayout(np.zeros((m, n), dtype=dt), lay)
+        if fc == 'bad-cfa':
+            caught(ctx, fc, bayer.recomposite_bayer, *pl, cfa='grbg', output=buf)
+        elif fc == 'bad-output':
+            # a buffer of the wrong shape is refused; the right one is used next
+            caught(ctx, fc, bayer.recomposite_bayer, *pl, cfa=cfa, output=np.zeros((m + 1, n + 3), dtype=dt))
+            caught(ctx, fc, bayer.recomposite_bayer, *pl, cfa=cfa, output=7)
         rec = ctx.call(bayer.recomposite_bayer, *pl, cfa=cfa, output=buf)
     else:
         rec = ctx.call(bayer.recomposite_bayer, *pl, cfa=cfa)
     U.check_equal(np.asarray(rec), img0, 'recomposite(decomposite):' + cfa, 'recomposite(decomposite(img)) != img')
-    if case['out_arg']:     # "output array": the caller's buffer is what gets filled
+    if with_buf:     # "output array": the caller's buffer is what gets filled
         U.check_equal(np.asarray(buf), img0, 'recomposite:output-not-filled', 'the array passed as output= does not hold the mosaic afterwards')
     require_unchanged(ctx, 'recomposite_bayer', ['r plane', 'g1 plane', 'g2 plane', 'b plane'], pl, psnap)
     rec_kept = np.array(rec, copy=True)
     ind0 = [_marker((hm, hn), dt, case['seed'], 20 + k, level, offset=1000 * k) for k in range(4)]
     ind = [relayout(p.copy(), lay) for p in ind0]
-    rec2 = np.asarray(ctx.call(bayer.recomposite_bayer, *ind, cfa=cfa))
+    if out_mode == 'reused':
+        # the buffer that still holds the previous mosaic is handed over again with four other planes
+        rec2 = np.asarray(ctx.call(bayer.recomposite_bayer, *ind, cfa=cfa, output=buf))
+        U.check_equal(np.asarray(buf), rec2, 'recomposite:output-not-filled', 'the re-used array passed as output= does not hold the second mosaic afterwards')
+    else:
+        rec2 = np.asarray(ctx.call(bayer.recomposite_bayer, *ind, cfa=cfa))
     U.check_shape(rec2, (m, n), 'recomposite')
-    for k, name in enumerate(('r', 'g1', 'g2', 'b')):
-        U.check_equal(rec2[col == k].reshape(hm, hn), ind0[k], 'recomposite:%s:%s' % (cfa, name), 'plane %s must land on its own sites' % name)
-    if not case['out_arg']:
+    rb = ':output-reused' if out_mode == 'reused' else ''
+    for k, name in enumerate(names4):
+        U.check_equal(rec2[col == k].reshape(hm, hn), ind0[k], 'recomposite:%s:%s%s' % (cfa, name, rb), 'plane %s must land on its own sites%s' % (
+            name, ' (output= buffer used for the second time)' if rb else ''))
+    if not with_buf:
         require_kept(ctx, 'recomposite_bayer', rec, rec_kept, 'four other planes of the same shape were recomposited')
+    if out_mode == 'views':
+        # decompose a mosaic, edit one plane in place, write the planes back into the mosaic's own buffer (the planes the library
+        # hands out may be views of that buffer: every site then receives its own, current value)
+        work = relayout(img0.copy(), lay)
+        vplanes = ctx.call(bayer.decomposite_bayer, work, cfa)
+        which = case['seed'] % 4
+        expect = img0.copy()
+        if np.shares_memory(vplanes[which], work):
+            ctx.label('decomposite-returns-views')
+            edited = np.array(vplanes[which], copy=True)[::-1, ::-1]
+            vplanes[which][...] = edited
+            expect[col == which] = edited.ravel()
+        back = ctx.call(bayer.recomposite_bayer, *vplanes, cfa=cfa, output=work)
+        U.check_equal(np.asarray(back), expect, 'recomposite:%s:output-is-the-decomposed-mosaic' % cfa,
+                      'planes of decomposite_bayer(mosaic) (plane %s edited in place) written back with output=mosaic' % names4[which])
+        U.check_equal(np.asarray(work), expect, 'recomposite:output-not-filled', 'the mosaic passed as output= does not hold the recomposited planes afterwards')
     # composite: dense planes, each picked at its own sites
     dense0 = [_marker((m, n), dt, case['seed'], 30 + k, level) for k in range(4)]
     dense = [relayout(p.copy(), lay) for p in dense0]
+    if fc == 'bad-cfa':
+        caught(ctx, fc, bayer.composite_bayer, *dense, cfa='grbg')
+    elif fc == 'bad-output':
+        caught(ctx, fc, bayer.composite_bayer, *dense, cfa=cfa, output=7)
+        caught(ctx, fc, bayer.composite_bayer, dense[0], dense[1][:-1], dense[2], None, cfa=cfa)
     dsnap = snapshot(*dense)
-    if case['out_arg']:
+    cb = ''
+    if out_mode.startswith('plane:'):
+        # the buffer is one of the dense planes: its own sites keep their samples, the other sites receive the other colours
+        kout = names4.index(out_mode[6:])
+        cbuf = dense[kout]
+        dsnap[kout] = None
+        cb = ':output-is-the-%s-plane' % names4[kout]
+        comp = np.asarray(ctx.call(bayer.composite_bayer, *dense, cfa=cfa, output=cbuf))
+        U.check_equal(np.asarray(cbuf), comp, 'composite:output-not-filled', 'the %s plane passed as output= does not hold the composite afterwards' % names4[kout])
+    elif with_buf:
         cbuf = relayout(np.zeros((m, n), dtype=dt), lay)
+        if out_mode == 'reused':
+            # first use of the buffer: the same planes in another role order; second use below is the checked one
+            cb = ':output-reused'
+            ctx.call(bayer.composite_bayer, dense[3], dense[2], dense[1], dense[0], cfa=cfa, output=cbuf)
         comp = np.asarray(ctx.call(bayer.composite_bayer, *dense, cfa=cfa, output=cbuf))
         U.check_equal(np.asarray(cbuf), comp, 'composite:output-not-filled', 'the array passed as output= does not hold the composite afterwards')
     else:
         comp = np.asarray(ctx.call(bayer.composite_bayer, *dense, cfa=cfa))
     U.check_shape(comp, (m, n), 'composite')
-    for k, name in enumerate(('r', 'g1', 'g2', 'b')):
-        U.check_equal(comp[col == k], dense0[k][col == k], 'composite:%s:%s' % (cfa, name), 'composite must take plane %s at the %s sites' % (name, name))
+    for k, name in enumerate(names4):
+        U.check_equal(comp[col == k], dense0[k][col == k], 'composite:%s:%s%s' % (cfa, name, cb), 'composite must take plane %s at the %s sites%s' % (
+            name, name, ' (%s)' % cb[1:] if cb else ''))
     require_unchanged(ctx, 'composite_bayer', ['r plane', 'g1 plane', 'g2 plane', 'b plane'], dense, dsnap)
     # demosaicking keeps native samples
     chan = np.array([0, 1, 1, 2])[col]          # colour channel (R, G, B) native to each site
@@ -763,7 +979,8 @@ def strat_wb(tier):
                                   'gains': st.tuples(gain, gain, gain, gain).map(list), 'safe': st.sampled_from([False, True, True]),
                                   'sat': st.one_of(sat, st.tuples(sat, sat, sat, sat).map(list)), 'seed': U.seeds,
                                   'gform': st.sampled_from(FORMS), 'satseq': st.sampled_from(['list', 'tuple', 'ndarray', 'np64']),
-                                  'layout': st.sampled_from(LAYOUTS)})
+                                  'layout': st.sampled_from(LAYOUTS),
+                                  'failed_call': st.sampled_from(['none', 'none', 'bad-cfa', 'safe-without-saturation'])})
 
 
 def _common_ratio(ctx, ratios, who):
@@ -800,6 +1017,14 @@ def check_wb(case, ctx):
     sarg = sat_arg(sat)
     asnap = snapshot(sarg, *gains)
     kw = {'safe': True, 'saturation': sarg} if safe else {}
+    # requests that the library refuses before it touches the in-place target (an unknown layout, safe mode without a saturation
+    # level); an ill-typed gain is not among them: the documented in-place update has then already been applied to some sites
+    fc = case.get('failed_call', 'none')
+    ctx.label('failed-call:' + fc)
+    if fc == 'bad-cfa':
+        caught(ctx, fc, bayer.wb_prescale, mosaic, *gains, 'grbg', **kw)
+    elif fc == 'safe-without-saturation':
+        caught(ctx, fc, bayer.wb_prescale, mosaic, *gains, cfa, safe=True)
     ctx.call(bayer.wb_prescale, mosaic, *gains, cfa, **kw)
     require_unchanged(ctx, 'wb_prescale', ['saturation', 'wr', 'wg1', 'wg2', 'wb'], [sarg] + gains, asnap)
     rt = 1e-6 if dt == 'float32' else 1e-13
@@ -821,6 +1046,8 @@ def check_wb(case, ctx):
     g3a = [gains[0], gains[1], gains[3]]
     asnap = snapshot(sat3, *g3a)
     kw = {'safe': True, 'saturation': sat3} if safe else {}
+    if fc == 'safe-without-saturation':
+        caught(ctx, fc, bayer.wb_postscale, rgb, *g3a, safe=True)
     ctx.call(bayer.wb_postscale, rgb, *g3a, **kw)
     require_unchanged(ctx, 'wb_postscale', ['saturation', 'wr', 'wg', 'wb'], [sat3] + g3a, asnap)
     g3 = np.array([wr, wg1, wb])
